@@ -1,3 +1,4 @@
+import JadeModel.Proofs.SystemGen
 import JadeModel.Proofs.SystemNode
 import JadeModel.Props.C07
 
